@@ -66,6 +66,15 @@ pub fn c_leaves(p: &Program, c: &Comp, prefix: &str, out: &mut Vec<Leaf>) {
     }
 }
 
+/// A typedef that is, or names through a chain of typedefs, an aligned typedef.
+pub fn alias_of_aligned(p: &Program, d: &Decl) -> bool {
+    match d {
+        Decl::Typedef { aligned: Some(_), .. } => true,
+        Decl::Typedef { ty: Ty::Named(k), .. } => alias_of_aligned(p, &p.decls[*k]),
+        _ => false,
+    }
+}
+
 /// C translation unit printing the facts of every type declaration of the program.
 pub fn c_probe_source(p: &Program, header: &str) -> String {
     let mut s = String::new();
@@ -84,7 +93,11 @@ pub fn c_probe_source(p: &Program, header: &str) -> String {
             _ => {}
         }
         s.push_str(&format!("  printf(\"size:{i} %zu\\n\", sizeof({t}));\n"));
-        s.push_str(&format!("  printf(\"align:{i} %zu\\n\", (size_t)_Alignof({t}));\n"));
+        // a Rust type alias cannot carry an alignment of its own; what an aligned typedef does to
+        // the types that use it is checked through their layouts
+        if !alias_of_aligned(p, d) {
+            s.push_str(&format!("  printf(\"align:{i} %zu\\n\", (size_t)_Alignof({t}));\n"));
+        }
         match d {
             Decl::Comp(c) => {
                 let mut leaves = vec![];
